@@ -265,9 +265,15 @@ def batch_consumers(ctx):
         return pt.einsum("ij,ij->j", mk("x", (da, 3)), mk("y", (db, 3))) if isinstance(da, int) and isinstance(db, int) \
             else pt.einsum("ij,ij->ij", mk("x", (da, 3)), mk("y", (db, 3)))
 
+    def c_einsum3(da, db):
+        return pt.einsum("ij,kj->ijk", mk("x", (2, da)), mk("y", (3, db)))
+
     def c_matmul(da, db):
-        return mk("x", (2, da)) @ mk("y", (db, 3)) if isinstance(da, int) and isinstance(db, int) \
-            else pt.einsum("ij,kj->ijk", mk("x", (2, da)), mk("y", (3, db)))
+        # the CONTRACTED axis: NumPy's matmul does not stretch a length of 1 there (pytato did until fix 957f394)
+        return mk("x", (2, da)) @ mk("y", (db, 3))
+
+    def c_dot(da, db):
+        return pt.dot(mk("x", (4, 2, da)), mk("y", (5, db, 3)))
 
     def c_broadcast_to(da, db):
         return pt.broadcast_to(mk("x", (da, 3)), (2, db, 3))
@@ -311,7 +317,7 @@ def batch_consumers(ctx):
 
     # name -> (constructor, NumPy-broadcasting admitted, which operand may be 1)
     consumers = {"add": (c_add, "both"), "where": (c_where, "both"), "stack": (c_stack, None),
-                 "einsum": (c_einsum, "both"), "einsum-3": (c_matmul, "both"), "broadcast_to": (c_broadcast_to, "first"),
+                 "einsum": (c_einsum, "both"), "einsum-3": (c_einsum3, "both"), "matmul": (c_matmul, None), "dot": (c_dot, None), "broadcast_to": (c_broadcast_to, "first"),
                  "call": (c_call, None), "csr": (c_csr, None),
                  "einsum-diagonal": (c_einsum_diag, "both"), "einsum-diagonal-later-operand": (c_einsum_diag_later_operand, "both"),
                  "where-3-unit-first": (c_where3, "both"), "where-3-scalar-first": (c_where3_scalar_first, "both"),
